@@ -1,2 +1,21 @@
-(* placeholder, filled with the executable cascade checkers *)
-From NG Require Import V2.Term.
+(* Executable checkers for the cascade part of the C10 correspondence. *)
+From Coq Require Import List Arith Bool.
+From NG Require Import V2.Term V2.Cascade.
+Import ListNotations.
+
+(* is the (real, loaded) program inside the class covered by C10_rtc_bound_partial? *)
+Definition in_class (prog : program) : bool := cascade_guardedb prog.
+
+(* case = (program, [(live instances before the event, internal events processed by the real
+   run_to_completion)]).  The real interpreter additionally emits one UnhandledEvent per internal
+   event nobody matches, hence the factor 2. *)
+Definition check_bound (c : program * list (nat * nat)) : bool :=
+  let '(prog, obs) := c in
+  let '(certs, cleans) := compute_certs prog (S (length prog)) in
+  negb (cascade_cert_ok prog certs cleans) ||
+  forallb (fun ls => Nat.leb (snd ls) (2 * rtc_bound prog certs (fst ls) 1 + 2)) obs.
+
+Definition bound_of (c : program * nat) : nat :=
+  let '(prog, lv) := c in
+  let '(certs, cleans) := compute_certs prog (S (length prog)) in
+  rtc_bound prog certs lv 1.
